@@ -2,9 +2,178 @@
 
 package immutable
 
+import (
+	"fmt"
+	"runtime"
+
+	"github.com/openGemini/openGemini/lib/encoding"
+	"github.com/openGemini/openGemini/lib/fileops"
+	"github.com/openGemini/openGemini/lib/numberenc"
+	"github.com/openGemini/openGemini/lib/util/lifted/vm/protoparser/influx"
+)
+
 // isFreeDbg exposes the sequencer's "free" flag to the harness (diagnostics only).
 func (s *Sequencer) IsFreeDbg() bool {
 	s.seqMu.RLock()
 	defer s.seqMu.RUnlock()
 	return s.isFree
+}
+
+// VerifBlockModes walks every chunk, column and segment of a data file, reads the
+// raw encoded bytes of the segment and reports its class "<type>/<form>/<mode>":
+//
+//	type  int | float | bool | string | time
+//	form  one (single-value block) | full (no nulls) | empty (all nulls) |
+//	      bitmap (explicit null bitmap, bitmap offset 0) | bitmap+off (bitmap offset != 0)
+//	mode  the encoder mode exactly as the decoder reads it: the high nibble of the
+//	      first payload byte (lib/encoding Decoding / lib/compress AdaptiveDecoding);
+//	      "raw" for the single-value form, "none" for a block without payload
+//
+// plus "chunkmeta/<compress mode of the file's chunk meta blocks>" once per file.
+// Read-only (normal-priority reads: neither the meta cache nor the background-read
+// limiter are involved); used by the C07 check to measure which encoder modes the
+// generated histories reach.
+func VerifBlockModes(f TSSPFile, add func(key string)) error {
+	add(fmt.Sprintf("chunkmeta/%s", verifChunkMetaModeName(f.ChunkMetaCompressMode())))
+	n := int(f.MetaIndexItemNum())
+	var cms []ChunkMeta
+	var buf []byte
+	for i := 0; i < n; i++ {
+		mi, err := f.MetaIndexAt(i)
+		if err != nil {
+			return err
+		}
+		cms, err = f.ReadChunkMetaData(i, mi, cms[:0], fileops.IO_PRIORITY_NORMAL)
+		if err != nil {
+			return err
+		}
+		for ci := range cms {
+			cm := &cms[ci]
+			for k := range cm.colMeta {
+				col := &cm.colMeta[k]
+				for s := range col.entries {
+					off, size := col.entries[s].OffsetSize()
+					buf = buf[:0]
+					b, err := f.ReadData(off, size, &buf, fileops.IO_PRIORITY_NORMAL)
+					if err != nil {
+						return err
+					}
+					add(verifClassifyBlock(col, b))
+				}
+			}
+		}
+	}
+	return nil
+}
+
+func verifChunkMetaModeName(m uint8) string {
+	switch m {
+	case ChunkMetaCompressNone:
+		return "none"
+	case ChunkMetaCompressSnappy:
+		return "snappy"
+	case ChunkMetaCompressLZ4:
+		return "lz4"
+	case ChunkMetaCompressSelf:
+		return "self"
+	}
+	return fmt.Sprintf("?%d", m)
+}
+
+// verifClassifyBlock mirrors decodeColumnData / appendTimeColumnData + DecodeColumnHeader.
+func verifClassifyBlock(col *ColumnMeta, data []byte) (key string) {
+	typ := "?"
+	switch {
+	case col.IsTime():
+		typ = "time"
+	case col.ty == influx.Field_Type_Int:
+		typ = "int"
+	case col.ty == influx.Field_Type_Float:
+		typ = "float"
+	case col.ty == influx.Field_Type_Boolean:
+		typ = "bool"
+	case col.ty == influx.Field_Type_String:
+		typ = "string"
+	}
+	// a block that does not parse (a failed encoder left a header without payload, ...) is reported as
+	// such; the read checks of the harness judge what it means
+	defer func() {
+		if recover() != nil {
+			key = typ + "/malformed"
+		}
+	}()
+	if len(data) == 0 {
+		return typ + "/malformed"
+	}
+	if encoding.IsBlockOne(data[0]) {
+		return typ + "/one/raw"
+	}
+	form := ""
+	var payload []byte
+	switch {
+	case encoding.IsBlockFull(data[0]):
+		form, payload = "full", data[5:]
+	case encoding.IsBlockEmpty(data[0]):
+		form, payload = "empty", data[5:]
+	default:
+		pos := 1
+		bmLen := int(numberenc.UnmarshalUint32(data[pos:]))
+		pos += 4 + bmLen
+		bmOff := numberenc.UnmarshalUint32(data[pos:])
+		pos += 8
+		form, payload = "bitmap", data[pos:]
+		if bmOff != 0 {
+			form = "bitmap+off"
+		}
+	}
+	if len(payload) == 0 {
+		return typ + "/" + form + "/none"
+	}
+	m := int(payload[0] >> 4)
+	mode := fmt.Sprintf("?%d", m)
+	switch typ {
+	case "int":
+		mode = verifPick(m, map[int]string{1: "constdelta", 2: "simple8b", 3: "zstd", 4: "uncompressed"})
+	case "time":
+		mode = verifPick(m, map[int]string{1: "constdelta", 2: "simple8b", 3: "snappy", 4: "uncompressed"})
+		if m == 2 && len(payload) >= 9 {
+			// the simple8b form divides the deltas by a power of ten that is stored in front
+			if numberenc.UnmarshalUint64(payload[1:]) > 1 {
+				mode = "simple8b-scaled"
+			}
+		}
+	case "float":
+		mode = verifPick(m, map[int]string{0: "raw", 1: "oldgorilla", 2: "snappy", 3: "gorilla", 4: "same", 5: "rle", 6: "mlf"})
+	case "bool":
+		mode = verifPick(m, map[int]string{1: "bitpack"})
+	case "string":
+		mode = verifPick(m, map[int]string{0: "uncompressed", 1: "snappy", 2: "zstd", 3: "lz4"})
+	}
+	return typ + "/" + form + "/" + mode
+}
+
+func verifPick(m int, names map[int]string) string {
+	if s, ok := names[m]; ok {
+		return s
+	}
+	return fmt.Sprintf("?%d", m)
+}
+
+// VerifDropPooledCoders empties every place a column coder can outlive a table
+// operation: the channel cache of stream-compaction iterators (their column builder
+// keeps its coders) and, through two GC cycles, every sync.Pool of the process.  The
+// harness calls it when a per-run knob changes string-compress-algo, which a running
+// store never does (a string coder keeps the compressor it was first used with).
+func VerifDropPooledCoders() {
+	if streamIteratorsPool != nil {
+		for drained := false; !drained; {
+			select {
+			case <-streamIteratorsPool.cache:
+			default:
+				drained = true
+			}
+		}
+	}
+	runtime.GC()
+	runtime.GC()
 }
